@@ -8,7 +8,8 @@
    extracted model replays the stream and must agree on live set / tags / ref_counts / in-degrees at every step. *)
 From Coq Require Import List Arith Bool ZArith.
 From NV Require Import Heap.Heap Heap.Ops Heap.Refcount Heap.HeapProofs Heap.OpsProofs Heap.RunProofs Heap.Churn Heap.Witness.
-From NV Require Import gen.ChurnC14.
+From NV Require Import Heap.Width Heap.WidthProofs.
+From NV Require Import gen.ChurnC14 gen.HeapParams.
 Import ListNotations.
 
 (* ---- the invariant: interning table sound, and for every id  in-degree(roots, live containers) <= ref_count
@@ -186,3 +187,44 @@ Qed.
 Example C14_ex_uaf_detected :
   release_wl 5 (Heap [Freed] []) [0] = UAF /\ retain (Heap [Freed] []) 0 = UAF.
 Proof. split; reflexivity. Qed.
+
+(* ---- the count FIELD.  The model counts with unbounded numbers; vm.c stores the count in VmHeapHeader.ref_count, whose width
+   (rc_width), like the size of a reference cell and the VM's limits, is read from the current headers by the C compiler
+   (NV.gen.HeapParams).  These theorems come LAST in the file: a header change that breaks them leaves the others standing. *)
+
+(* in an exact state a count is at most the number of memory cells that can hold a reference:
+   stack slots + globals + handler locals + slots of live containers + call frames *)
+Theorem C14_count_bounded_by_cells : forall m x, ExactInv m -> rcof (hp m) x <= ref_cells m.
+Proof. exact rc_le_cells. Qed.
+Print Assumptions C14_count_bounded_by_cells.
+
+(* the VM's own limits do not bound that number (they bound one stack, the globals and the frames; the number of containers
+   is limited by memory only), so the obligation is stated under the memory assumption of NV.Heap.Width
+   (assumed_vm_memory_bytes = 2^35): at most max_ref_cells = 2^35 / sizeof(NanoValue) + VM_MAX_FRAMES references can exist,
+   and that must fit the field.  Decided on the generated numbers: holds for the 32-bit field, FAILS for a narrower one. *)
+Theorem C14_count_fits_width : (max_ref_cells < 2 ^ rc_width)%N.
+Proof. vm_compute. reflexivity. Qed.
+Print Assumptions C14_count_fits_width.
+
+(* hence the field never wraps and holds exactly the model's count in every exact state that fits the assumed memory *)
+Theorem C14_count_never_wraps : forall m x, ExactInv m -> fits_memory m ->
+  (N.of_nat (rcof (hp m) x) < 2 ^ rc_width)%N /\ field_value (rcof (hp m) x) = N.of_nat (rcof (hp m) x).
+Proof. exact (count_fits_field C14_count_fits_width). Qed.
+Print Assumptions C14_count_never_wraps.
+
+(* a 16-bit field does not meet the obligation (65536 references need 1 MiB of cells), nor does any width up to 31 *)
+Theorem C14_count_needs_32_bits : ~ (max_ref_cells < 2 ^ 16)%N /\ ~ (max_ref_cells < 2 ^ 31)%N.
+Proof. split; vm_compute; discriminate. Qed.
+Print Assumptions C14_count_needs_32_bits.
+
+(* many owners: 300 DUPs of one interned string give it 301 counted owners (an 8-bit field would have wrapped at 256);
+   the model's counts are unbounded, the bound above is about memory, not about the model *)
+Definition ex_many : list instr := IEnter 0 :: IPushStr 0 :: repeat IDup 300.
+Example C14_ex_many_owners :
+  exists m, run ex_many init_state = Some (Ok m) /\ ExactInv m /\ rcof (hp m) 0 = 301 /\ ref_cells m = 302.
+Proof.
+  destruct (run ex_many init_state) as [[m| | |]|] eqn:R; try (vm_compute in R; discriminate).
+  exists m. split. reflexivity. split.
+  - apply (run_exact ex_many init_state m init_exact R). vm_compute. reflexivity.
+  - vm_compute in R. inversion R. split; vm_compute; reflexivity.
+Qed.
